@@ -215,6 +215,27 @@ def check_b(ck, repo):
                     ck.verdict(g == m, "C06.b", fi, st, f"{short}: metric {m} where norm == {g}", f"{short} computes {m} distances where norm == '{g}': the {g} path mixes two geometries")
                 else:
                     ck.verdict(m == "L1", "C06.b", fi, st, f"{short}: Manhattan distances on an L1-only path", f"{short} computes {m} (Euclidean) distances on a path reachable from the L1 entry points without any guard on the norm")
+    # methods inherited from scikit-learn's KMeans work in Euclidean geometry: the L1 code may
+    # call the validators among them, not the ones that compute distances or labels
+    EUCLID = {"_transform", "transform", "predict", "score", "fit_predict", "fit_transform", "fit", "_labels_inertia", "_init_centroids", "_predict", "_fit"}
+    HARMLESS = {"_check_test_data", "_validate_center_shape", "_validate_data", "_check_params", "_check_params_vs_input", "_check_mkl_vcomp", "_check_feature_names", "_check_n_features", "get_params", "set_params", "_more_tags", "__sklearn_tags__", "_validate_params"}
+    for fi in funcs:
+        if fi.cls is None or fi.cls.name != CLS:
+            continue
+        for c in own_nodes_incl_lambda(fi.node):
+            if isinstance(c, ast.Call) and isinstance(c.func, ast.Attribute) and src_of(c.func.value) == "self" and c.func.attr not in ci.methods:
+                nm = c.func.attr
+                st = enclosing_stmt(c) if hasattr(c, "_parent") else c
+                g = _guard_norm(conds_at(repo, fi, c))
+                if g == "L2":
+                    continue
+                n += 1
+                if nm in EUCLID:
+                    ck.violated("C06.b", fi, st, f"self.{nm}(..) is scikit-learn's KMeans.{nm}: it measures Euclidean distances, on a path reachable from the L1 entry points: the labels / distances answered with norm='L1' are not Manhattan ones")
+                elif nm in HARMLESS:
+                    ck.holds("C06.b", fi, st, f"self.{nm}: a validator of the parent, no geometry involved", nontrivial=False)
+                else:
+                    ck.unknown("C06.b", fi, st, f"self.{nm}(..) is inherited from scikit-learn's KMeans and not known to this rule as a validator or as a distance computation")
     ck.extra["l1_reachable_functions"] = [f.qualname.split(":")[1] for f in funcs]
     return n
 
@@ -561,6 +582,11 @@ def run(ck):
     check_c(ck, repo)
     check_d(ck, repo)
     check_f(ck, repo)
+    from .sem import share_clauses
+
+    share_clauses(ck, "c01", {
+        "C01.a": ("C06.g", "every constructor parameter shared with KMeans reaches KMeans.__init__ and is stored under its name: with norm='L2' the estimator runs scikit-learn's algorithm with the caller's parameters"),
+    }, keep=lambda o: o.function.startswith("KMeansL1L2."))
     ck.require_count("C06.a", 5, "three dispatchers x (set, refuse, delegation)")
     ck.require_count("C06.b", 2, "pairwise_distances_argmin_min x2, manhattan_distances x2 (+ euclidean under L2 guards)")
     ck.require_count("C06.c", 3, "median axis/selection/store, final E-step centres/X/guard")
